@@ -86,7 +86,7 @@ func c19ChildMain(spec string) {
 	go func() { l.Wait(); close(waited) }()
 	select {
 	case <-waited:
-	case <-time.After(5 * time.Second):
+	case <-time.After(20 * time.Second):
 		fmt.Printf("\nC19CHILD 1 %d 0 0\n", reports.Load())
 		os.Exit(0)
 	}
@@ -103,7 +103,7 @@ func c19ChildMain(spec string) {
 		}
 		close(submitted)
 	}()
-	deadline := time.Now().Add(5 * time.Second)
+	deadline := time.Now().Add(20 * time.Second)
 	for inside.Load() < ne && time.Now().Before(deadline) {
 		time.Sleep(200 * time.Microsecond)
 	}
@@ -117,9 +117,9 @@ func c19ChildMain(spec string) {
 		select {
 		case <-fin:
 			ok = 1
-		case <-time.After(5 * time.Second):
+		case <-time.After(20 * time.Second):
 		}
-	case <-time.After(5 * time.Second):
+	case <-time.After(20 * time.Second):
 	}
 	fmt.Printf("\nC19CHILD 1 %d %d %d\n", reports.Load(), got, ok)
 	os.Exit(0)
@@ -149,7 +149,7 @@ func c19HostileRun(n, hk, vk, k int64) []int64 {
 	go func() { done <- cmd.Wait() }()
 	select {
 	case <-done:
-	case <-time.After(30 * time.Second):
+	case <-time.After(100 * time.Second):
 		cmd.Process.Kill()
 		<-done
 	}
